@@ -5,3 +5,7 @@ from . import c06
 
 def run(ctx):
     c06.run_common(ctx, "ProductComplete", c06.CFG_COMPLETE, "C07")
+
+
+def replay(ctx, rec):
+    return c06.replay_common(ctx, rec, "ProductComplete", c06.CFG_COMPLETE, "C07")
